@@ -51,6 +51,13 @@ def directed_chains():
     cases.append(Case("CvtToFuzzy", {"TrueThreshold": -0.1, "FalseThreshold": 0.1}, [g]))
     cases.append(Case("CvtToFuzzyCurve", {"RawValues": [-0.5, 0.5], "FuzzyValues": [-3, 3]}, [g]))
     cases.append(Case("CvtToFuzzyCat", {"RawValues": [0.5, -0.5], "FuzzyValues": [5, -5], "DefaultFuzzyValue": 2}, [g]))
+    # inputs declared fuzzy that hold values outside the range (a plug-in command, a reader): every fuzzy operator still returns values in range,
+    # also for one-element lists and for lists of many
+    wide = numpy.ma.array([1.25, -3.0, 0.5, -1.0, 7.0, 0.0], mask=[False, False, False, False, False, True])
+    for cmd in ("FuzzyOr", "FuzzyAnd", "FuzzyUnion", "FuzzyNot", "FuzzyXOr", "FuzzySelectedUnion", "FuzzyWeightedUnion"):
+        for k in ((1,) if cmd == "FuzzyNot" else (2, 3) if cmd == "FuzzyXOr" else (1, 2, 9)):
+            params = {"FuzzySelectedUnion": {"TruestOrFalsest": "Truest", "NumberToConsider": 1}, "FuzzyWeightedUnion": {"Weights": [1] * k}}.get(cmd, {})
+            cases.append(Case(cmd, params, [wide.copy() if j % 2 == 0 else -wide.copy() for j in range(k)]))
     for f in (f1, f2, f3, f4):
         cases.append(Case("FuzzyNot", {}, [f]))
         cases.append(Case("FuzzyUnion", {}, [f, f2]))
